@@ -67,9 +67,14 @@ def generate(rng, tier, index):
         r0 = c.loguniform(0.02, 0.3)
         structure.append(kind)
         if kind == "pair":
-            r1 = r0 * c.uniform(0.5, 1.0)
-            add(cx, cy, cz, 0.5, 0, 0, r0)
-            add(cx + (r0 + r1) * c.choice([0.3, 0.75, 0.9, 0.97, 0.995]), cy, cz, -0.5, 0, 0, r1)     # deep to grazing overlaps
+            r1 = r0 * c.choice([c.uniform(0.5, 1.0), 0.05, 0.01])
+            sep = (r0 + r1) * c.choice([0.3, 0.75, 0.9, 0.97, 0.995])     # deep to grazing overlaps
+            if c.chance(0.5):
+                add(cx, cy, cz, 0.5, 0, 0, r0)
+                add(cx + sep, cy, cz, -0.5, 0, 0, r1)
+            else:       # the larger body has the higher index
+                add(cx + sep, cy, cz, -0.5, 0, 0, r1)
+                add(cx, cy, cz, 0.5, 0, 0, r0)
         elif kind == "separating":
             add(cx, cy, cz, -0.5, 0, 0, r0)
             add(cx + 1.5 * r0, cy, cz, 0.5, 0, 0, r0)
@@ -84,12 +89,16 @@ def generate(rng, tier, index):
                 add(cx + dx, cy + dy, cz + dz, -3 * dx, -3 * dy, -3 * dz, r0 * c.uniform(0.7, 1.0))
         elif kind == "giant":
             R = c.uniform(0.5, 1.2)
-            add(cx, cy, cz, 0, 0, 0, R, m=10.0)
+            giant_last = c.chance(0.5)      # (index order matters to searches that record a pair from one side only)
+            if not giant_last:
+                add(cx, cy, cz, 0, 0, 0, R, m=10.0)
             for i in range(c.randint(2, 6)):
                 th, ph = c.uniform(0, 6.28), c.uniform(0.3, 2.8)
                 d = R * c.uniform(0.6, 0.99)
                 dx, dy, dz = d * math.sin(ph) * math.cos(th), d * math.sin(ph) * math.sin(th), d * math.cos(ph)
                 add(cx + dx, cy + dy, cz + dz, -dx, -dy, -dz, c.choice([0.0, 1e-3, 1e-2]), m=1e-6)
+            if giant_last:
+                add(cx, cy, cz, 0, 0, 0, R, m=10.0)
         elif kind == "image" and boundary == "shear":
             # pair across the radial face, both on (or near) the shear flow vy = -1.5*OMEGA*x, offset in y so that the separation has a y component
             y, z = c.uniform(-Ly / 2 + 1, Ly / 2 - 1), c.uniform(-Lz / 2 + 1, Lz / 2 - 1)
